@@ -7,6 +7,7 @@ import (
 	"github.com/PowerDNS/lightningstream/config"
 	"github.com/PowerDNS/lightningstream/snapshot"
 	"github.com/PowerDNS/lightningstream/utils"
+	"github.com/PowerDNS/lightningstream/utils/vhook"
 	"github.com/c2h5oh/datasize"
 	"github.com/sirupsen/logrus"
 )
@@ -71,12 +72,14 @@ func (d *Downloader) Run(ctx context.Context) error {
 			// Do one load attempt
 			if err := d.LoadOnce(ctx, ni); err != nil {
 				d.l.WithError(err).WithField("filename", ni.FullName).Warn("Load error")
+				vhook.At(d.r.ownInstance, "dl.error", 0)
 				if err := utils.SleepContext(ctx, d.c.StorageRetryInterval); err != nil {
 					return err // cancelled
 				}
 				continue // retry
 			}
 
+			vhook.At(d.r.ownInstance, "dl.done", 0)
 			// Mark this as the last processed one
 			d.last = ni
 			break // success
